@@ -13,7 +13,7 @@ class C13(Machine):
     FAMILY_WEIGHTS = {"sparse": 4, "dense": 2, "canal": 2, "modular": 2, "maa": 2}
     NMAX = {"quick": 6, "thorough": 8}
     ASSUMPTIONS = [
-        "work budget B = 3e6 + 500*n*2^n*(|SD|+1) + 100*n^2*(minimum_simulation_budget+1024) back-edges/calls; a livelock exceeds any bound, legitimate ops observed stay >= 6x below it",
+        "work budget B = 1.5e6 + 500*n*2^n*(|SD|+1) + 50*n^2*(minimum_simulation_budget+1024) back-edges/calls; a livelock exceeds any bound, legitimate ops observed stay >= 6x below it",
         "time spent inside C extensions (clingo, AEON) is not counted; a hang there is only caught by the wall guard and reported as a harness error",
     ]
 
